@@ -76,7 +76,7 @@ def run(ctx, res):
         binary = build.complgen()
     cs = cases(ctx)
     texts = [c['text'] for c in cs]
-    dumps = impl.dump(exe, texts, ['parse', 'check', 'regex', 'raw', 'amb'], SHELLS)
+    dumps = impl.dump(exe, texts, ['parse', 'check', 'regex', 'raw', 'min', 'amb'], SHELLS)
     jobs = []
     for c in cs:
         for sh in SHELLS:
@@ -90,6 +90,8 @@ def run(ctx, res):
                 tree = st['PARSE'][4:-1]
                 reqs.append('check %s %s' % (sh, tree)); index.append((i, sh, 'check'))
                 reqs.append('mistakes %s %s' % (sh, tree)); index.append((i, sh, 'mistakes'))
+            if st.get('MIN', '').startswith('(ok ') and 'AMB' in st:
+                reqs.append('amb %s' % st['MIN'][4:-1]); index.append((i, sh, 'amb'))
     outs = dict(zip(index, model.run(reqs)))
     res.rule = ('clean-by-construction random grammar (fresh literal per leaf, guarded placeholders) + at most one planted mistake '
                 'of classes %s, placed in the call variant or behind 0-2 definitions, random layout; x 4 shells; '
@@ -158,6 +160,14 @@ def run(ctx, res):
                 if not t1_ok and variant == 'NonterminalDefinitionsCycle' and mo.startswith('(err (NonterminalDefinitionsCycle'):
                     t1_ok = True      # which cycle is reported depends on hash order (oracle of DESIGN 4.3)
                     res.traces_validated += 1
+            # --- T1 for the last check of the pipeline (DFA::check_ambiguity_best_effort on the minimised automaton)
+            ma = outs.get((i, sh, 'amb'))
+            if ma is not None:
+                if sexp.parse(ma) == sexp.parse(st['AMB']):
+                    res.traces_validated += 1
+                else:
+                    t1_ok = False
+                    replay['model_amb'] = ma[:1500]
             if problems:
                 res.violations.append(report.Violation('C08: ' + '; '.join(problems), dict(replay, kind='spec-judgement', problems=problems)))
             elif not t1_ok:
